@@ -49,7 +49,7 @@ Print Assumptions C17_side_condition_needed.
 (* ---- the Go arithmetic this property rests on, AS TRANSLATED FROM THE CURRENT SOURCES by tools/gotrans
    (gen/Funcs.v, operators in GoSem.v), equals the model's, for all values of the Go types ---- *)
 From Coq Require Import ZArith NArith Bool.
-From Pogreb Require Import Base Record Index GoSem FuncsIndexCheck FuncsRecordCheck FuncsLogCheck FuncsFSCheck.
+From Pogreb Require Import Base Record Index GoSem FuncsFSCheck.
 From Pogreb.gen Require Funcs Consts.
 Import Funcs.
 Open Scope Z_scope.
